@@ -11,7 +11,7 @@ os.makedirs("/tmp/mutw", exist_ok=True)
 subprocess.check_call(["rsync", "-a", "--exclude", ".git", "--exclude", "SEED*", "/repo/", wd + "/"])
 env = dict(os.environ, GOFLAGS="-mod=mod", GOPROXY="off")
 norm = lambda l: re.sub(r" @ .*$", "", l.strip())
-base = set(norm(l) for l in subprocess.run(["/verif/bin/iscpcheck", "sweep", "--repo", wd], capture_output=True, text=True, env=env).stdout.splitlines() if l.strip())
+base = set(norm(l) for l in subprocess.run([os.environ.get("CHK","/verif/bin/iscpcheck"), "sweep", "--repo", wd], capture_output=True, text=True, env=env).stdout.splitlines() if l.strip())
 still = []
 for r in surv:
     m = muts[r["id"]]
@@ -19,7 +19,7 @@ for r in surv:
     orig = open(path, "rb").read()
     try:
         open(path, "wb").write(orig[:m["start"]] + m["new"].encode() + orig[m["end"]:])
-        out = subprocess.run(["/verif/bin/iscpcheck", "sweep", "--repo", wd], capture_output=True, text=True, env=env).stdout
+        out = subprocess.run([os.environ.get("CHK","/verif/bin/iscpcheck"), "sweep", "--repo", wd], capture_output=True, text=True, env=env).stdout
         fired = sorted(set(norm(l) for l in out.splitlines() if l.strip()) - base)
     finally:
         open(path, "wb").write(orig)
